@@ -124,6 +124,7 @@ class Model:
   def __init__(self, values, choices):
     self.values = values
     self.choices = choices
+    self.z3model = None
 
   def __getitem__(self, name):
     return self.values.get(name)
@@ -140,12 +141,20 @@ class Model:
   def seq(self, name):
     n = self.values.get(name + '.len') or 0
     arr = self.values.get(name + '.arr')
-    return [arr(i) for i in range(n)] if callable(arr) else []
+    if isinstance(arr, list):
+      return list(arr[:n]) + [0] * max(0, n - len(arr))
+    return [arr(i) for i in range(min(n, 64))] if callable(arr) else [0] * min(n, 64)
 
   def to_json(self):
     out = {}
     for k, v in self.values.items():
       if callable(v):
+        if k.endswith('.arr'):
+          n = self.values.get(k[:-4] + '.len') or 0
+          try:
+            out[k] = [v(i) for i in range(min(int(n), 64))]
+          except Exception:  # pylint: disable=broad-except
+            pass
         continue
       out[k] = v
     return {'values': out, 'choices': self.choices}
@@ -159,7 +168,9 @@ def model_from_z3(path, m):
     except z3.Z3Exception:
       continue
     vals[name] = _pyval(v, m)
-  return Model(vals, dict(path.notes.get('choices', {})))
+  mm = Model(vals, dict(path.notes.get('choices', {})))
+  mm.z3model = m
+  return mm
 
 
 def _pyval(v, m):
@@ -175,7 +186,7 @@ def _pyval(v, m):
     return v.as_string()
   if z3.is_bv_value(v):
     return v.as_long()
-  if z3.is_array(v):
+  if isinstance(v.sort(), z3.ArraySortRef):
     def look(i, arr=v):
       return _pyval(m.eval(z3.Select(arr, i), model_completion=True), m)
     return look
@@ -243,7 +254,7 @@ class Contract:
   def clauses(self, prefix):
     out = []
     for n in dir(self):
-      if n.startswith(prefix):
+      if n.startswith(prefix) and callable(getattr(self, n)):
         out.append((n[len(prefix):], getattr(self, n)))
     return out
 
@@ -490,6 +501,8 @@ def run_contract(contract, xcheck=True, goal_timeout_ms=8000):
         raise I.Infeasible()
     old = call_clause(interp, contract.old, env) if hasattr(contract, 'old') else None
     env['old'] = old
+    # exceptional conditions are predicates of the pre-state
+    exc_conds = {cname: interp.truth_z(call_clause(interp, fn, env)) for cname, fn in exc_iff}
     outcome = None
 
     def check(kind, cname, fn, env_=None):
@@ -526,7 +539,7 @@ def run_contract(contract, xcheck=True, goal_timeout_ms=8000):
       env['result'] = outcome[1]
       # exc_iff: on normal return every exceptional condition is false
       for cname, fn in exc_iff:
-        cond = interp.truth_z(call_clause(interp, fn, env))
+        cond = exc_conds[cname]
         z = (not cond) if isinstance(cond, bool) else z3.Not(cond)
         ex.check_goal(path, contract.oblig('EXC', cname + '/returns-only-if-not'), z)
       for cname, fn in ensures:
@@ -546,7 +559,7 @@ def run_contract(contract, xcheck=True, goal_timeout_ms=8000):
         ecls = getattr(contract, 'exc_class_' + cname)
         if issubclass(exc.cls, ecls):
           matched = True
-          cond = interp.truth_z(call_clause(interp, fn, env))
+          cond = exc_conds[cname]
           ex.check_goal(path, contract.oblig('EXC', cname + '/raises-only-if'), cond)
       for ecls, names in contract.raises.items():
         if issubclass(exc.cls, ecls):
@@ -658,7 +671,7 @@ def _xcheck(contract, rep, model, outcome, path):
       rep.xcheck_mismatch.append(
           f'symbolic result {sym!r} vs native {got[1]!r}; model={model.to_json()}')
   elif isinstance(sym, (SBool, SInt)) and isinstance(got[1], (bool, int)):
-    m = I.safe_model(path.solver)
+    m = getattr(model, 'z3model', None)
     if m is None:
       return
     v = m.eval(sym.z, model_completion=True)
